@@ -322,7 +322,9 @@ func externalizeBatchCtx(
 	if config.Compression != nil && config.Compression.Algorithm == "zstd" {
 		level := zstd.SpeedDefault
 		if config.Compression.Level > 0 {
-			level = zstd.EncoderLevel(config.Compression.Level)
+			// Compression.Level is a zstd level (1-22), not one of the
+			// encoder's four speed presets.
+			level = zstd.EncoderLevelFromZstd(config.Compression.Level)
 		}
 		encoder, err := zstd.NewWriter(nil, zstd.WithEncoderLevel(level))
 		if err != nil {
